@@ -93,6 +93,8 @@ BlockChecks(e, BB, UU) ==
         \* ledger checks.  Violations in exactly those blocks carry the tag.
         blind(x) == obs.tiph > 2 * G /\ BB[x].h + G <= obs.tiph + 1 /\ BB[lab].parent # obs.tip
         tagof(x) == IF blind(x) THEN "-by-a-reorganisation-as-deep-as-the-window" ELSE ""
+        taintnow == (adopted \/ wound_then_panic) /\ rooted
+                    /\ \E x \in Rng(wound) : blind(x) /\ (viol(x) # {} \/ atrv(x) # {})
         c01 == IF (adopted \/ wound_then_panic) /\ rooted
                THEN UNION {{Bad(e, PropOf(v), v \o tagof(x) \o " in " \o x) : v \in viol(x)} : x \in Rng(wound)}
                ELSE {}
@@ -122,9 +124,15 @@ BlockChecks(e, BB, UU) ==
         c02 == IF T.tip # "" /\ T.tip # "?" /\ (T.tip = lab \/ T.tip \in DOMAIN BB) /\ ~env.detached
                   /\ LcMatches(e.st.lc, PathTo(BB, T.tip), T.tiph, G)
                   /\ ~LimbEq(Supply(T.utxo, T.tiph, G, tiphdr), env.issued)
-               THEN {Bad(e, "C02", IF adopted THEN "supply-changed"
-                                   ELSE IF IsPanic(e.res) THEN "supply-changed-before-abort"
-                                   ELSE "supply-changed-by-unaccepted-block")} ELSE {}
+               THEN {Bad(e, "C02", (IF adopted THEN "supply-changed"
+                                    ELSE IF IsPanic(e.res) THEN "supply-changed-before-abort"
+                                    ELSE "supply-changed-by-unaccepted-block")
+                                   \* known finding: the chain holds a block that was wound without the ledger checks
+                                   \* and breaks them (its value was created or destroyed there)
+                                   \o (IF env.tainted \/ taintnow THEN "-after-a-reorganisation-as-deep-as-the-window"
+                                       \* known finding (C12): a restart with a competing branch on disk may come up on that
+                                       \* branch, whose blocks are loaded without the ledger checks
+                                       ELSE IF env.rtaint THEN "-after-a-restart-onto-a-competing-branch" ELSE ""))} ELSE {}
         c04 == IF e.res \in {"Invalid", "Exists"} /\ (T.utxo # obs.utxo \/ T.tip # obs.tip)
                THEN {Bad(e, "C04", "rejected-block-changed-ledger")} ELSE {}
         \* C08: routing work of a block against the requirement
@@ -187,6 +195,25 @@ BlockChecks(e, BB, UU) ==
                \cup (IF honest /\ ~IsPanic(e.res) /\ ~(adopted /\ T.tiph = e.h)
                      THEN {Bad(e, "C05", "valid-extension-of-the-tip-not-adopted")} ELSE {})
     IN c01 \cup c13 \cup c13f \cup c13r \cup c03 \cup c02 \cup c04 \cup c05 \cup c07 \cup c06 \cup pan \cup c08w \cup c08p \cup c08n \cup c08k
+
+(* the block event adopts a chain in which a block wound without the ledger checks (known finding: a    *)
+(* reorganisation as deep as the window) breaks them; same definitions as in BlockChecks               *)
+TaintNow(e, BB, UU) ==
+    LET lab == e.label
+        G == env.g
+        T == [tip |-> IF e.st.tiph = 0 THEN "" ELSE e.st.tip, tiph |-> e.st.tiph]
+        adopted == e.res = "AddedLc" /\ T.tip = lab
+        wound_then_panic == IsPanic(e.res) /\ T.tip = lab /\ obs.tip # lab
+        newpath == PathTo(BB, lab)
+        oldpath == PathTo(BB, obs.tip)
+        wound == SelectSeq(newpath, LAMBDA x : x \notin Rng(oldpath))
+        rooted == newpath # <<>> /\ BB[newpath[1]].parent = "" /\ \A x \in Rng(newpath) : x \in DOMAIN UU
+                  /\ (T.tip = lab => LcMatches(e.st.lc, newpath, T.tiph, G)) /\ ~env.detached
+        pre(x) == IF BB[x].parent = "" THEN {} ELSE UU[BB[x].parent]
+        blind(x) == obs.tiph > 2 * G /\ BB[x].h + G <= obs.tiph + 1 /\ BB[lab].parent # obs.tip
+    IN (adopted \/ wound_then_panic) /\ rooted
+       /\ \E x \in Rng(wound) : blind(x) /\ (BlockViolations(pre(x), BB[x].txs, BB[x].h, G) # {}
+                                              \/ AtrViolations(pre(x), BB[x].txs, BB[x].h, G) # {})
 
 (* ---- pool (C14) and wallet (C19) checks on any observed state --------------------- *)
 PoolChecks(e, st, P, u, tiph) ==
@@ -253,12 +280,12 @@ OnWalletTx(e) ==
 TraceInit ==
     /\ l = 1 /\ bad = {} /\ B = <<>> /\ U = <<>> /\ pool = <<>>
     /\ obs = [tip |-> "", tiph |-> 0, utxo |-> {}]
-    /\ env = [g |-> 100, issued |-> LimbZero, nodekey |-> "", reorgs |-> 0, detached |-> FALSE, nd |-> NoSample, wc |-> {}]
+    /\ env = [g |-> 100, issued |-> LimbZero, nodekey |-> "", reorgs |-> 0, detached |-> FALSE, nd |-> NoSample, wc |-> {}, tainted |-> FALSE, rtaint |-> FALSE]
 
 OnReset(e) ==
     /\ B' = <<>> /\ U' = <<>> /\ pool' = <<>>
     /\ obs' = [tip |-> "", tiph |-> 0, utxo |-> {}]
-    /\ env' = [g |-> e.g, issued |-> T3(e.issued), nodekey |-> e.node_key, reorgs |-> 0, detached |-> FALSE, nd |-> NoSample, wc |-> {}]
+    /\ env' = [g |-> e.g, issued |-> T3(e.issued), nodekey |-> e.node_key, reorgs |-> 0, detached |-> FALSE, nd |-> NoSample, wc |-> {}, tainted |-> FALSE, rtaint |-> FALSE]
     /\ bad' = bad
 
 OnBlock(e) ==
@@ -277,7 +304,8 @@ OnBlock(e) ==
        /\ obs' = T
        /\ pool' = P2
        /\ env' = [env EXCEPT !.reorgs = IF isreorg THEN @ + 1 ELSE @,
-                              !.detached = @ \/ (T.tip \in DOMAIN BB /\ ~LcMatches(e.st.lc, PathTo(BB, T.tip), T.tiph, env.g))]
+                              !.detached = @ \/ (T.tip \in DOMAIN BB /\ ~LcMatches(e.st.lc, PathTo(BB, T.tip), T.tiph, env.g)),
+                              !.tainted = @ \/ TaintNow(e, BB, UU)]
        /\ bad' = bad \cup BlockChecks(e, BB, UU)
                      \cup (IF IsPanic(e.res) THEN {} ELSE PoolChecks(e, e.st, P2, T.utxo, T.tiph))
                      \cup (IF IsPanic(e.res) THEN {} ELSE WalletChecksR(e, e.st, T.utxo, T.tiph, env.wc, BB, isreorg))
@@ -330,7 +358,8 @@ OnRestart(e) ==
                \cup (IF ~env.detached /\ ~SupplyOk(e, e.st) THEN {Bad(e, "C12", "restart-changed-supply")} ELSE {}))
     /\ obs' = IF IsPanic(e.res) THEN obs ELSE b
     /\ pool' = [id \in (DOMAIN pool \cap Rng(e.st.pool)) |-> pool[id]]     \* the pool is not persisted
-    /\ env' = [env EXCEPT !.wc = {}]                                      \* nor are the wallet's commitments
+    /\ env' = [env EXCEPT !.wc = {},                                     \* nor are the wallet's commitments
+                           !.rtaint = @ \/ (~IsPanic(e.res) /\ b.tip # a.tip /\ e.competing > 0)]
     /\ UNCHANGED <<B, U>>
 
 (* a crash after any prefix of the storage operations, last write complete / absent / torn: the node comes up, on a *)
